@@ -5,14 +5,17 @@
 #ifndef VF_CASE
 #define VF_CASE 0
 #endif
-#ifndef VF_NK
-#define VF_NK 1
+#ifndef VF_KS
+#define VF_KS 0
+#endif
+#ifndef VF_RECREATE
+#define VF_RECREATE 1
 #endif
 #ifndef VF_NV
 #define VF_NV 1
 #endif
 // engine side: three keys with arbitrary bytes; KeyIDs are arbitrary distinct non-zero numbers
-static unsigned char g_keyBytes[3][2]; static unsigned g_keyLen[3]; static uint64_t g_keyId[3];
+static unsigned char g_keyBytes[3][4]; static unsigned g_keyLen[3]; static uint64_t g_keyId[3];
 struct HDelegate : public BuildDBDelegate {
   const KeyID getKeyID(const KeyType& key) override {
     for (int i = 0; i < 3; i++) if (key.size() == g_keyLen[i] && memcmp(key.data(), g_keyBytes[i], g_keyLen[i]) == 0) { KeyID k; k._value = g_keyId[i]; return k; }
@@ -26,16 +29,27 @@ struct HDelegate : public BuildDBDelegate {
 struct HRule : public Rule { HRule(const KeyType& k) : Rule(k) {} Task* createTask(BuildEngine&) override { return nullptr; } bool isResultValid(BuildEngine&, const ValueType&) override { return true; } };
 extern "C" void stub_errmsg(std::string* out, void* self) { new (out) std::string("E"); }
 extern "C" void stub_twine_str(std::string* out, void* tw) { new (out) std::string("T"); }
+extern "C" void stub_to_string_i(std::string* out, int v) { new (out) std::string("N"); }     // message formatting only
+extern "C" void stub_to_string_u(std::string* out, unsigned v) { new (out) std::string("N"); }
 static SQLiteBuildDB* newDB(bool recreate, uint32_t client) { SQLiteBuildDB* d = new SQLiteBuildDB("p", client, recreate); d->attachDelegate(new HDelegate); return d; }
 static void freshSchema(uint32_t client) { m_info.exists = true; m_info.tables = true; m_info.version = 17; m_info.client_version = client; m_info.iteration = 0; }
 static uint64_t dbits(double d) { uint64_t u; memcpy(&u, &d, 8); return u; }
 extern "C" void harness_db(void) {
-  for (int i = 0; i < 3; i++) { g_keyLen[i] = i == 0 ? VF_NK : 1 + (i & 1); for (unsigned j = 0; j < g_keyLen[i]; j++) g_keyBytes[i][j] = nondet_u8(); g_keyId[i] = 0x1000 * (i + 1); }   // engine key ids are concrete (their hash decides DenseMap buckets); their values carry no meaning
-  // distinct engine keys have distinct byte strings
-  VF_ASSUME(!(g_keyLen[0] == g_keyLen[1] && memcmp(g_keyBytes[0], g_keyBytes[1], g_keyLen[0]) == 0));
-  VF_ASSUME(!(g_keyLen[0] == g_keyLen[2] && memcmp(g_keyBytes[0], g_keyBytes[2], g_keyLen[0]) == 0));
-  VF_ASSUME(!(g_keyLen[1] == g_keyLen[2] && memcmp(g_keyBytes[1], g_keyBytes[2], g_keyLen[1]) == 0));
+  // Key bytes are CONCRETE per query (VF_KS selects a triple): which table row a key selects must be
+  // concrete for the encoding to stay small.  The triples contain NUL bytes, a key that is a prefix of
+  // another one, and the empty key; everything else (values, epochs, signature, flags, timestamps) is symbolic.
+  static const struct { const char* k[3]; unsigned n[3]; } KS[4] = {
+    { { "a", "d\0", "d" }, { 1, 2, 1 } },          // dependency key with a trailing NUL next to its NUL-free prefix
+    { { "\0b", "b", "\0" }, { 2, 1, 1 } },         // leading NUL
+    { { "", "x\0y", "x" }, { 0, 3, 1 } },           // empty rule key, embedded NUL
+    { { "\xff\x80", "1", "1.0" }, { 2, 1, 3 } },    // high bytes; numeric-looking keys (distinct rows in this model; SQLite affinity is outside)
+  };
+  for (int i = 0; i < 3; i++) { g_keyLen[i] = KS[VF_KS].n[i]; for (unsigned j = 0; j < g_keyLen[i]; j++) g_keyBytes[i][j] = (unsigned char)KS[VF_KS].k[i][j]; g_keyId[i] = 0x1000 * (i + 1); }
+#if VF_CASE == 1
   uint32_t client = nondet_u32();
+#else
+  uint32_t client = 7;   // the client version only matters to the version gate (case 1)
+#endif
   std::string err;
 #if VF_CASE == 0
   // R1 round trip (+ T1/T3 monitors): write in one "process", read back in another (fresh object, same tables)
@@ -76,7 +90,7 @@ extern "C" void harness_db(void) {
 #elif VF_CASE == 1
   // R3 version gate
   m_info.tables = nondet_bool(); m_info.exists = m_info.tables && nondet_bool(); m_info.version = (int)nondet_u32(); m_info.client_version = nondet_u32(); m_info.iteration = 5;
-  bool recreate = nondet_bool();
+  const bool recreate = VF_RECREATE;   // concrete per query
   bool matches = m_info.tables && m_info.exists && m_info.version == 17 && m_info.client_version == client;
   SQLiteBuildDB* d = newDB(recreate, client);
   bool ok = false; uint64_t ep = d->getCurrentEpoch(&ok, &err);
